@@ -115,7 +115,7 @@ func init() {
 			"self/mutual cycles) x attribute-file variants (none, two user attributes, an unnamed attribute) - quick: all one-entry dictionaries + a seeded sample of two-entry ones, thorough: all; " +
 			"each loaded with --chord/--attr and every user name and display (plus one built-in) played; distinct = distinct dictionaries / built-ins",
 		Gen: func(c *Ctx) []Case {
-			cases := []Case{{"cmd": "attrlist"}, {"cmd": "chordlist"}}
+			cases := []Case{{"cmd": "attrlist"}, {"cmd": "attruse"}, {"cmd": "chordlist"}}
 			list, _ := builtinChordList(c)
 			for _, b := range list {
 				cases = append(cases, Case{"cmd": "builtin", "name": b.Name, "display": b.Meta.Display})
@@ -249,6 +249,25 @@ func init() {
 				var a1, a2 []yAttr
 				ok := len(r1.Stdout) > 0 && len(r2.Stdout) > 0 && yaml.Unmarshal(r1.Stdout, &a1) == nil && yaml.Unmarshal(r2.Stdout, &a2) == nil
 				return []Rec{{"kind": "attrlist", "ok": ok, "list": pairsOf(a1), "gen": pairsOf(a2)}}
+			case "attruse":
+				// what a built-in attribute name denotes where it matters: in a chord that is played.  One user chord per name
+				// (unison + that attribute), all of them in one piece
+				r1 := c.crd([]string{"info", "attr", "list"}, nil)
+				var a1 []yAttr
+				if len(r1.Stdout) == 0 || yaml.Unmarshal(r1.Stdout, &a1) != nil || len(a1) == 0 {
+					return []Rec{{"kind": "attruse", "ok": false, "names": [][]int{}, "ons": [][]int{}}}
+				}
+				var sb strings.Builder
+				keys, names := []string{}, [][]int{}
+				for i, a := range a1 {
+					fmt.Fprintf(&sb, "- name: AttrUse%d\n  meta: {display: au%d}\n  attributes: [Perfect1, %s]\n", i, i, a.Name)
+					keys = append(keys, fmt.Sprintf("au%d", i))
+					names = append(names, chars(a.Name))
+				}
+				f := c.writeTemp(fmt.Sprintf("attruse%d.yml", nextID()), sb.String())
+				defer os.Remove(f)
+				runs, ok := playSeq(c, keys, []string{"--chord", f})
+				return []Rec{{"kind": "attruse", "ok": ok, "names": names, "ons": runs}}
 			case "chordlist":
 				list, ok := builtinChordList(c)
 				cl := []Rec{}
